@@ -698,12 +698,7 @@ def rule_S6(ctx, rid='S6'):
 
 def run(ctx):
     rule_REC(ctx)
-    rule_S6(ctx)
     rule_RETRY(ctx)
-    rule_TRIMREF(ctx)
-    from ..effects import rule_G7
-    k7 = rule_G7(ctx, {'n_points_min'})      # the CONFIGURED minimum reaches every union
-    ctx.require(k7 >= 3, 'G7 saw only %d hand-over sites for n_points_min (floor 3)' % k7)
     prog = ctx.program
     ctx.rule('L1', 'group-complete: along every bounded path, all members of an aligned group '
              'undergo the same sequence of structural updates with the same selectors')
@@ -731,6 +726,14 @@ def run(ctx):
     rule_F9(ctx)      # the recorded construction points are never modified through a call
     rule_T1(ctx, 'Union.split', {'bounds', 'points_bounds', 'log_v_all'}, false_return=True)
     rule_T1(ctx, 'Union.trim', {'bounds', 'points_bounds', 'log_v_all'}, false_return=True)
+    # shape-sensitive rules last: an unrecognised shape ends the run as "not decided" (exit 2)
+    # only after every other rule has had its say (C13_f: candidate chosen in linear space is
+    # N3's finding, not an analysis error of S6)
+    rule_S6(ctx)
+    rule_TRIMREF(ctx)
+    from ..effects import rule_G7
+    k7 = rule_G7(ctx, {'n_points_min'})      # the CONFIGURED minimum reaches every union
+    ctx.require(k7 >= 3, 'G7 saw only %d hand-over sites for n_points_min (floor 3)' % k7)
     ctx.extra['paths_compared'] = total
     ctx.floor('L1', 6, 'member lockstep verdicts')
     ctx.floor('T1', 5, 'rejection exits')
